@@ -2593,13 +2593,14 @@ class Recipe:
                     if step.trash:
                         flows["out"] += vfunc(step.to[0].wells) - vfunc(step.to[1].wells)
                     else:
-                        flows["in"] += vfunc(step.to[1].wells) - vfunc(step.to[0].wells)
+                        # a plate can be source and destination of one step: only the wells that gained
+                        flows["in"] += np.maximum(vfunc(step.to[1].wells) - vfunc(step.to[0].wells), 0)
                 if isinstance(step.frm[0], Container) and step.frm[0].name == container.name:
                     flows["out"] += (sum(map(helper, step.frm[0].contents.items())) -
                                      sum(map(helper, step.frm[1].contents.items())))
                 if isinstance(step.frm[0], Plate) and step.frm[0].name == container.name:
                     vfunc = np.vectorize(plate_helper, otypes='d')
-                    flows["out"] += vfunc(step.frm[0].wells) - vfunc(step.frm[1].wells)
+                    flows["out"] += np.maximum(vfunc(step.frm[0].wells) - vfunc(step.frm[1].wells), 0)
         precision = config.precisions[unit] if unit in config.precisions else config.precisions['default']
         for key in flows:
             if isinstance(flows[key], np.ndarray):
